@@ -52,6 +52,44 @@ ParametersDict = Dict[str, Any]
 # xxxxxxxxxxxxxxxxxxxxxxxxxxxxxxxxxxxxxxxxxxxxxxxxxxxxxxxxxxxxxxxxxxxxxxxxx
 # xxxxxxxxxxxxxxx Module Functions xxxxxxxxxxxxxxxxxxxxxxxxxxxxxxxxxxxxxxxx
 # xxxxxxxxxxxxxxxxxxxxxxxxxxxxxxxxxxxxxxxxxxxxxxxxxxxxxxxxxxxxxxxxxxxxxxxxx
+def _same_parameter_value(value1: Any, value2: Any) -> bool:
+    """
+    Check if two parameter values are the same.
+
+    Values of different shapes are different values, even when numpy could
+    broadcast one to the other (otherwise `[5]` would be the same as
+    `np.array([5, 5])` and an empty array would be the same as anything). A
+    NaN is the same value as another NaN.
+
+    Parameters
+    ----------
+    value1, value2 : any
+        The two parameter values.
+
+    Returns
+    -------
+    bool
+        True if both values are the same, False otherwise.
+    """
+    try:
+        if np.shape(value1) != np.shape(value2):
+            return False
+    except ValueError:  # pragma: no cover
+        # Nested sequences with different lengths have no shape
+        pass
+
+    different = value1 != value2
+    if np.any(different):
+        # NaN is different from itself: positions where both values are
+        # NaN are not a difference
+        try:
+            both_nan = np.logical_and(value1 != value1, value2 != value2)
+            different = np.logical_and(different, np.logical_not(both_nan))
+        except (TypeError, ValueError):  # pragma: no cover
+            pass
+    return not np.any(different)
+
+
 def combine_simulation_parameters(
         params1: "SimulationParameters",
         params2: "SimulationParameters") -> "SimulationParameters":
@@ -486,8 +524,8 @@ class SimulationParameters(JsonSerializable):
             # whose value does not matter when comparing if two
             # SimulationResults objects are equal or not.
             if key != "rep_max":
-                # noinspection PyTypeChecker
-                if np.any(self.parameters[key] != other.parameters[key]):
+                if not _same_parameter_value(self.parameters[key],
+                                             other.parameters[key]):
                     return False
 
         # If we didn't return until we reach this point then the objects
